@@ -14,26 +14,47 @@ namespace OutlineModel.Tie.IP
 open OutlineModel OutlineModel.GoRT OutlineModel.IP
 open OutlineModel.Gen
 
-/-- the range loop with an early `return true`: its final state says whether some network contains `ip` -/
-theorem anyLoop (nets : List (List UInt8 × List UInt8)) (ip : List UInt8) :
-    (forIn nets ((none, ()) : Option Bool × Unit) (fun network _ =>
-        if contains network ip = true then (pure (ForInStep.done (some true, ())) : Option _)
-        else pure (ForInStep.yield (none, ()))))
-      = some (if nets.any (contains · ip) then (some true, ()) else (none, ())) := by
-  induction nets with
+/-- a loop with an early `return true` over ANY list whose elements project (by `π`) onto the networks, for ANY body
+    that stops with `true` at a network containing `ip` and goes on otherwise: its final state says whether some network
+    contains `ip`.  Covers `for _, n := range nets` (π = id) and the index form `for i := 0; i < len(nets); i++` (which the
+    translator turns into a range over (index, element) pairs: π = second component). -/
+theorem anyLoopG {β : Type} (π : β → List UInt8 × List UInt8) (ip : List UInt8)
+    (body : β → Option Bool × Unit → Option (ForInStep (Option Bool × Unit)))
+    (hbody : ∀ x, body x (none, ()) =
+      if contains (π x) ip = true then some (ForInStep.done (some true, ())) else some (ForInStep.yield (none, ()))) :
+    ∀ (L : List β), forIn L (none, ()) body =
+      some (if (L.map π).any (contains · ip) then (some true, ()) else (none, ())) := by
+  intro L
+  induction L with
   | nil => rfl
-  | cons n rest ih =>
-    simp only [List.forIn_cons, List.any_cons]
-    by_cases h : contains n ip = true
+  | cons x rest ih =>
+    simp only [List.forIn_cons, hbody, List.map_cons, List.any_cons]
+    by_cases h : contains (π x) ip = true
     · simp [h]
-    · simp only [h, Bool.false_eq_true, ↓reduceIte, Bool.false_or]
-      simpa using ih
+    · simp only [h, Bool.false_eq_true, if_false, Bool.false_or, Option.bind_eq_bind, Option.bind_some]
+      exact ih
+
+theorem enum_map_snd {α : Type} (l : List α) : (GoRT.enum l).map (·.2) = l := by
+  simp only [GoRT.enum, List.map_map]
+  have : ∀ (n : Nat), List.map ((fun (x : Int × α) => x.2) ∘ fun (p : α × Nat) => ((p.2 : Int), p.1)) (l.zipIdx n) = l := by
+    induction l with
+    | nil => intro n; rfl
+    | cons a rest ih => intro n; simp [List.zipIdx_cons, ih]
+  exact this 0
 
 /-- **IsPrivateAddress** is the model's `isPrivate` over the generated CIDR table; it never panics -/
 theorem isPrivate_tie (ip : List UInt8) : Code.IsPrivateAddress ip = some (isPrivate Gen.privateNets ip) := by
   unfold Code.IsPrivateAddress isPrivate
-  simp only [anyLoop, Option.bind_eq_bind, Option.bind_some]
-  cases (Gen.privateNets.any (contains · ip)) <;> rfl
+  simp only [Option.bind_eq_bind]
+  first
+    | (rw [anyLoopG (fun n => n) ip _ ?_ Gen.privateNets]
+       · simp only [List.map_id', Option.bind_some]
+         cases (Gen.privateNets.any (contains · ip)) <;> rfl
+       · intro x; by_cases h : contains x ip = true <;> simp [h])
+    | (rw [anyLoopG (fun (p : Int × (List UInt8 × List UInt8)) => p.2) ip _ ?_ (GoRT.enum Gen.privateNets)]
+       · simp only [enum_map_snd, Option.bind_some]
+         cases (Gen.privateNets.any (contains · ip)) <;> rfl
+       · intro x; by_cases h : contains x.2 ip = true <;> simp [h])
 
 /-- error values of the translated code as the model's verdicts -/
 def verdictOf : Option String → Option Verdict
